@@ -189,6 +189,10 @@ def gen(cx: Ctx, env, ty, depth) -> str:
             return p
         n = len(ty[1])
         cls = cx.pick([f"R{n}", f"N{n}"])
+        if [k for k, _ in ty[1]] == ["f_a", "f_c"]:
+            # a class with a defaulted middle field that the call skips: Q3(f_a, f_b=None, f_c=None)
+            a, c = (gen(cx, env, t, depth - 1) for _, t in ty[1])
+            return cx.pick([f"Q3({a}, f_c={c})", f"Q3(f_c={c}, f_a={a})", f"QN3({a}, f_c={c})", f"Q3(f_a={a}, f_c={c})"])
         npos = cx.int_(0, n)
         items = [gen(cx, env, t, depth - 1) for _, t in ty[1]]
         kws = [f"{key}={it}" for (key, _), it in list(zip(ty[1], items))[npos:]]
@@ -324,6 +328,8 @@ def any_type(cx: Ctx, env, depth):
         return cx.pick([I, F] + avail[:6])
     if c == 6 and cx.cfg.containers and cx.cfg.record_ctor:
         n = cx.int_(1, 3)
+        if n == 2 and cx.chance(5):
+            return ("D", (("f_a", any_type(cx, env, depth - 1)), ("f_c", any_type(cx, env, depth - 1))))
         return ("D", tuple((f"f_{chr(97 + i)}", any_type(cx, env, depth - 1)) for i in range(n)))
     if c <= 6 and cx.cfg.containers:
         n = cx.int_(1, 3)
@@ -430,6 +436,8 @@ def _called_lambda(cx: Ctx, env, ty, depth):
     e2 = env
     for i in range(n):
         nm = cx.fresh(e2)
+        if cx.cfg.naming != "distinct" and any(v == "k0" for v, _ in env) and cx.chance(2):
+            nm = "k0"  # a parameter named like the query's free scalar variable
         while nm in names:
             nm = nm + "_"
         t = any_type(cx, env, 1)
@@ -441,7 +449,8 @@ def _called_lambda(cx: Ctx, env, ty, depth):
     body = gen(cx, e2, ty, depth - 1)
     if cx.cfg.keywords_in_called and tys[-1] in (I, F, B) and cx.chance(2):
         # the last parameter has a default value and the call omits it
-        params = names[:-1] + [f"{names[-1]}={_const(cx, tys[-1])}"]
+        # the default is evaluated in the ENCLOSING scope: it may mention outer variables, also ones named like a parameter
+        params = names[:-1] + [f"{names[-1]}={gen(cx, env, tys[-1], 0)}"]
         return f"(lambda {', '.join(params)}: {body})({', '.join(args[:-1])})"
     if cx.cfg.keywords_in_called and cx.chance(4):
         npos = cx.int_(0, n - 1)
